@@ -11,6 +11,10 @@ from harness import core
 from harness.drivers.c09 import pack
 
 
+class OctetBlock(bytes):
+    """an 18-octet block in a caller's own subclass of bytes"""
+
+
 def learn():
     from bitarray import bitarray
     from okdmr.dmrlib.etsi.fec.trellis import Trellis34 as T
@@ -87,7 +91,12 @@ def run(ctx):
                 if isinstance(d1, bytearray):
                     d1[0] ^= 0xFF
             enc = T.encode(b if frozen else b.copy())
-            encb = T.encode(bytes(bitarray(b.tolist(), endian="big").tobytes()))
+            octets = bytes(bitarray(b.tolist(), endian="big").tobytes())
+            if len(blocks) % 4 == 3:
+                # "supplied as bytes" includes instances of subclasses of bytes (a payload wrapper, numpy.bytes_)
+                import numpy
+                octets = OctetBlock(octets) if len(blocks) % 8 == 3 else numpy.bytes_(octets)
+            encb = T.encode(octets)
             held = bitarray(enc.tolist(), endian="little") if little else (frozenbitarray(enc) if frozen else enc.copy())
             dec = T.decode(held)
             decb = T.decode(bitarray(enc.tolist(), endian="little") if little else enc.copy(), as_bytes=True)
